@@ -269,6 +269,38 @@ def rule_wiring(ctx):
               "is serialised): the id is not the UUIDv5 of the canonical form of what is written, and changes on a round trip",
               file=mj.module.relpath, line=mj.node.lineno, function=mj.qualname, expected="isinstance(value, (list, tuple))",
               found=[short(t) for t in seq_tests])
+    # ... and it IS generated then: a failure of the generator (content without a canonical form: nested too deeply, a number
+    # beyond the double range) is an error of the content -- a handler that swallows it and leaves the random UUIDv4 of the
+    # base constructor in place gives the same content a different id on every construction
+    swallowed = []
+    for gn in gen:
+        p_ = getattr(gn.ast, "parent", None)
+        c_ = gn.ast
+        while p_ is not None and p_ is not init.node:
+            if isinstance(p_, ast.Try) and c_ in p_.body:
+                for h in p_.handlers:
+                    if not (h.body and isinstance(h.body[-1], ast.Raise)):
+                        swallowed.append(h)
+            c_, p_ = p_, getattr(p_, "parent", None)
+    run.check(bool(gen) and not swallowed, R, key(rel, init.qualname, "generator-failure-is-an-error"),
+              "a failure of the deterministic id generator is swallowed: the object is then built with the random UUIDv4 default, "
+              "so equal content no longer gets equal ids (and the id is not the UUIDv5 of anything)", file=rel,
+              line=swallowed[0].lineno if swallowed else init.node.lineno, function=init.qualname,
+              expected="every handler around _generate_id() ends in raise", found=[short(h, 80) for h in swallowed])
+    # every mapping / sequence inside a contributing value is hashed WHOLE: the containers built here take every item of the
+    # value (its own iteration, no condition) -- a walk over the class's property table instead leaves custom properties of an
+    # embedded object / extension out of the hashed form, so two objects that differ only there get one id
+    pv = mj.params[0] if mj.params else "value"
+    comps = [c for c in body_walk(mj.node) if isinstance(c, (ast.DictComp, ast.ListComp, ast.SetComp, ast.GeneratorExp))]
+    badc = [c for c in comps if len(c.generators) != 1 or c.generators[0].ifs
+            or norm(c.generators[0].iter) not in ("%s.items()" % pv, pv)]
+    run.check(bool(comps) and not badc, R, key(mj.module.relpath, mj.qualname, "containers-hashed-whole"),
+              "a container inside a contributing value is rebuilt for hashing from something else than all of its own items (a "
+              "condition, or a walk over another table): what is hashed is not what is written -- members that are skipped "
+              "(custom properties inside an extension or embedded object) do not contribute, and the id no longer is the UUIDv5 "
+              "of the canonical form of the contributing properties", file=mj.module.relpath,
+              line=(badc[0].lineno if badc else mj.node.lineno), function=mj.qualname,
+              expected="{k: f(v) for k, v in value.items()} / [f(v) for v in value]", found=[short(c, 100) for c in badc])
     # stored when not None
     stores = [n for n in body_walk(init.node) if isinstance(n, ast.Assign) and norm(n.targets[0]) in ("self._inner['id']", 'self._inner["id"]')]
     oks = len(stores) == 1 and any(pol and norm(t).endswith("is not None") for t, pol, _ in guard_chain(stores[0]))
